@@ -63,6 +63,10 @@ class BayesianART(BaseART):
         assert params["rho"] > 0
         assert isinstance(params["rho"], float)
         assert isinstance(params["cov_init"], np.ndarray)
+        assert params["cov_init"].ndim == 2
+        assert params["cov_init"].shape[0] == params["cov_init"].shape[1]
+        # a covariance matrix: positive definite
+        assert np.all(np.linalg.eigvalsh(params["cov_init"]) > 0)
 
     def check_dimensions(self, X: np.ndarray):
         """Check that the data has the correct dimensions.
